@@ -74,6 +74,12 @@ CHECKS = {
         note="Cubic/eccentric-arc accuracy is the known finding KF-SUBDIVISION-LENGTH: inside that class only under-estimates not shorter than the 64-chord polygon are tolerated. Objects at scale <= 100, error down to 1e-6 (1e-7 thorough): bounded by size and count, not time.",
         ref="5/C15",
     ),
+    "C19": dict(
+        technique="property-based testing: generated arcs (alone and embedded in paths) with a validity predicate over the Bezier chain using the true point-to-ellipse distance",
+        text="Arcs with radii ratio up to 100, any rotation and extents from 1e-3 to 2.5 pi in both directions, converted by as_cubic_curves/as_quad_curves at default and explicit counts and by approximate_arcs_with_cubics/quads inside generated paths: chain ends equal the arc's end points exactly, consecutive curves join exactly, sampled points within 1e-3 (cubic) / 1e-2 (quadratic) radii of the ellipse by true distance, slice midpoints next to the arc's own mid-slice points, doubling the count does not increase the error, zero extent yields no curves, other path segments untouched. Exploration.",
+        note="Distance oracle: first-order implicit estimate when far below the bound, otherwise sampled + golden-section true distance. Bounds apply at or above the default subdivision (30 degree slices).",
+        ref="5/C19",
+    ),
 }
 
 REASON_PENDING = "no check registered yet in this build; the design (DESIGN.md section 5) covers it with property-based testing"
